@@ -419,7 +419,10 @@ def _affine_monitor(ctx, d, cfg, T=None, T_inv=None, log_jac=None, reg_eps=0.0, 
     G = W.T @ C @ W
     err = float(np.max(np.abs(G - np.eye(r))))
     cond = wmax / float(np.min(w[keep]))
-    tol = 1e-6 + 1e-9 * cond + (200.0 * reg_eps / float(np.min(w[keep])) if reg_eps else 0.0)
+    # (last term: the differences of logd are taken at m +- h e_i; when h is tiny compared with |m| the step itself is
+    #  only represented to eps*|m|/h)
+    tol = 1e-6 + 1e-9 * cond + (200.0 * reg_eps / float(np.min(w[keep])) if reg_eps else 0.0) \
+        + 1e4 * np.finfo(float).eps * max(1.0, float(np.max(np.abs(m))) / h)
     ctx.count("cov_vs_logd_hessian_checked")
     ctx.note("whitened_cov_err_rank_cond", [err, r, cond])
     if err > tol:
